@@ -718,6 +718,7 @@ func RunC19Shredding(ctx *core.Ctx) {
 				if i%4 == 1 {
 					c19LayoutCase(ctx, r) // small pages and dictionaries, several row groups, cursor reader
 				}
+				c19ForeignCases(ctx, r, d, &p) // files built cell by cell the way another writer lays them out
 				if len(p.reqs) >= 1000 {
 					p.flush(ctx, d)
 				}
@@ -968,6 +969,13 @@ func c19ShredCase(ctx *core.Ctx, r *rand.Rand, p *c19Pending, sample bool) {
 					}
 				})
 			}
+		}
+		{ // ---- L2: definition / repetition levels of every leaf column against the level mirror
+			evs := make([][]c19Ev, nrows)
+			for i := range evs {
+				evs[i] = c19AncestorEvents("top", nil)
+			}
+			c19CheckLevels(ctx, p, "top", s, data, wp.name, evs, values, detail)
 		}
 		sum := make([]int64, len(leafPaths))
 		pending := nrows
